@@ -89,10 +89,53 @@ class S(D.Spec):
 
 SPEC = S()
 
+from .. import connprop as K
+
+
+class ConnStage(K.ConnSpec):
+    """C09 at the connection level: Connection::recv on split / merged / garbage buffers inside connection histories"""
+    num = 9
+    bias = 0
+    quick_n = 1500
+    thorough_n = 40000
+    extra_rule = ("Connection-level stage of C09: Connection::recv is fed split and merged buffers, garbage and over-long Remaining Length "
+                  "fields inside connection histories; the monitor runs the framing model (proved chunking-independent) on the builder "
+                  "state and the buffer and requires the reported unread count, the absence of events for an incomplete frame and the kept "
+                  "partial frame to agree; the projection correspondence compares builder state, all events and the unread count.")
+
+    def __init__(self):
+        K.ConnSpec.__init__(self)
+        self.prop = "C09"
+        self.corpus_file = os.path.join(C.CORPUS, "C09conn.cases")
+
+
+CONN_STAGE = ConnStage()
+
 
 def run(tier, seed, t0):
-    return D.run(SPEC, tier, seed, t0)
+    import json, time
+    rc1 = D.run(CONN_STAGE, tier, seed, t0)
+    ev_path = os.path.join(C.VERIF, "evidence", "C09.json")
+    stage = None
+    if os.path.exists(ev_path):
+        stage = json.load(open(ev_path))
+    rc2 = D.run(SPEC, tier, seed, t0)
+    if stage is not None and os.path.exists(ev_path):
+        ev = json.load(open(ev_path))
+        cov = stage.get("coverage", {})
+        ev["coverage"]["connection_level_stage"] = {k: cov.get(k) for k in ("evaluations", "distinct_nontrivial", "rule", "correspondence_mismatches",
+                                                                            "monitor_failures", "in_coq_crosscheck", "generator")}
+        if "violations" in stage and "violations" in ev:
+            try:
+                ev["violations"] = ev["violations"] + stage["violations"]
+            except Exception:
+                pass
+        json.dump(ev, open(ev_path, "w"), indent=1)
+    return 1 if (rc1 or rc2) else 0
 
 
 def replay(path):
+    txt = open(path).read()
+    if "case-line: conn" in txt:
+        return D.do_replay(CONN_STAGE, path)
     return D.do_replay(SPEC, path)
